@@ -41,6 +41,12 @@ CLAIMED["C11"] = dict(
     technique="Lean 4 decode theorem against an independent spec of the 0xC0 body + kernel-exhaustive temperature lemmas; differential correspondence",
     note="Floats are compared in exact tenths/hundredths with an exactness guard.")
 
+CLAIMED["C15"] = dict(
+    text="Theorems (Lean 4, unbounded): one loop iteration on a well-formed record (any id incl. unknown, any size 0..255, undersized temperature records) followed by ANY bytes consumes exactly that record and applies exactly its assignments; hence for every list of up to 255 records and any trailer the parsed capabilities equal (as a mapping) the fold of 'interpret each record alone and merge in order' (interpAlone is proved to be what a one-record response parses to); splitting at ANY point across a first and an additional response and merging gives the same mapping as one response. The single-record meaning of the 40 table-driven ids is regenerated from the real parser on every run (Generated/CapTable); the loop theorems are parametric in it. Tie: correspondence of the real CapabilitiesResponse / get_capabilities() with the model on every known id x value next to random neighbours, temperature records of every size 0..10, random lists of up to 12 records, all split points through a paging simulated reply script; oracle computed on the implementation alone. One genuine defect found and repaired (fix: 336b922).",
+    design="DESIGN.md §6 C15",
+    technique="Lean 4 loop-invariant theorem (record-by-record) + dictionary-merge algebra; generated reader table; differential correspondence",
+    note="Equality of capabilities is lookup-equivalence (everything downstream reads them with .get).")
+
 NOT_YET = {
 }
 
